@@ -447,13 +447,22 @@ def judge_declarative(case, ctx, prefix):
     opt = {'p': p, 'mode': mode, 'polar': sol.get('polar', False), 'deg': sol.get('deg', False), 'scale': scale}
     for lab, (q, req) in zip(labels, wanted):
         cid, rev = req['name'], req.get('reverse', False)
+        if kind == 'single_frequency_time_domain':
+            # the library binds this key to its complex single-frequency adapter (RMS phasors); a time function (peak amplitude)
+            # would denote the same quantity just as well - the text itself says which of the two it is
+            txt = None if raised(lab) else (label_text(lab) or '')
+            as_time_function = txt is not None and ('cos(' in txt or 'sin(' in txt)
+            scale = 1.0 if as_time_function else 1 / math.sqrt(2)
+            opt = ({'p': 3, 'mode': 'sinus', 'sin': 'sin(' in (txt or ''), 'deg': '°' in (txt or ''), 'hertz': '2π' in (txt or ''), 'scale': 1.0} if as_time_function
+                   else {'p': p, 'mode': 'complex', 'polar': sol.get('polar', False), 'deg': sol.get('deg', False), 'scale': scale})
+            mode = opt['mode']
         ev, ei = rep['V'][cid] * scale, rep['I'][cid] * scale
         if q == 'voltage':
             val, unit, s = ev, 'V', refd['s_phi'] * scale
         elif q == 'current':
             val, unit, s = ei, 'A', refd['s_i'] * scale
         else:
-            val = complex(ev.real * ei.real) if mode == 'real' else ev * ei.conjugate()
+            val = complex(ev.real * ei.real) if mode == 'real' else ev * ei.conjugate() * (0.5 if mode == 'sinus' else 1.0)
             unit, s = 'W', refd['s_phi'] * refd['s_i'] * scale * scale
         judge_label(ctx, prefix, 'declarative-' + kind, q, next(c['ctor'] for c in comps if c['id'] == cid), lab, (-val if rev else val), unit, opt, refd['tol'] * s * 8, wa, rev)
     ctx.count('declarative_schematics')
